@@ -362,11 +362,16 @@ func checkToolchain(c *Ctx, prop string) error {
 }
 
 func toolReplay(c *Ctx, env *toolEnv, name string, tc *toolCase, cli *int64) {
-	base, err := c.newSandbox(name)
+	sb, err := c.newSandbox(name)
 	if err != nil {
 		return
 	}
-	defer os.RemoveAll(base)
+	defer os.RemoveAll(sb)
+	// every other tree lives below a directory whose NAME merely starts with regex-assembly
+	base := sb
+	if caseHash([]string{jsonStr(tc.Pre), jsonStr(tc.Cmd)}, c.Seed)%2 == 0 {
+		base = filepath.Join(sb, "regex-assembly-sandbox")
+	}
 	tr := env.concrete(&tc.Pre)
 	if err := writeTree(base, tr); err != nil {
 		return
